@@ -39,7 +39,8 @@ REAL_STUB = {
 EXPECTED_PROBES = ["probe_eviction", "probe_reopen", "probe_get_after_evict", "probe_oversize_rejected", "probe_missing_get",
                    "probe_overwrite", "probe_unload", "probe_table_merge_conflict", "probe_table_with_holes_read",
                    "probe_table_stored_with_pending_insert", "probe_table_batch_unordered_or_repeating", "probe_get_raised_after_read_error",
-                   "probe_missing_get_on_the_path_of_a_set_key", "probe_returned_table_mutated", "probe_epilogue_pressure_set"]
+                   "probe_missing_get_on_the_path_of_a_set_key", "probe_returned_table_mutated", "probe_epilogue_pressure_set",
+                   "probe_store_opened_again_with_another_limit"]
 WALL_CAP = {"quick": 300, "thorough": 3600}
 
 _fc = _kvs = _dfc = None
@@ -54,6 +55,17 @@ def setup_worker():
     _fc, _kvs, _dfc = fc, kvs, dfc
 
 
+def _fresh_store_modules():
+    """every run starts from the module-level state of a fresh process (a registry or cache a change keeps in a module of the
+    store layer must not carry over from the previous run of this worker: the run would not replay)"""
+    import importlib
+    global _fc, _kvs, _dfc
+    _fc = importlib.reload(_fc)
+    _dfc = importlib.reload(_dfc)
+    _kvs = importlib.reload(_kvs)
+    return _fc, _kvs
+
+
 def plan(tier):
     if tier == "quick":
         return [("kvs", {"kind": "kvs"}, 2400, 50), ("tables", {"kind": "tables"}, 700, 25), ("kvs-iofault", {"kind": "kvs", "iofault": 1}, 800, 50)]
@@ -65,7 +77,7 @@ KEYPOOL = ["a", "b", "c", "d/e", "d/f", "g/h/i", "g/h/j", "k k", "l.m", "café",
 ROOT = "/kv"
 
 
-def _check_cache(cache, fs, violations, when, model_keys, decode, failed_ok=None, diag=None):
+def _check_cache(cache, fs, violations, when, model_keys, decode, failed_ok=None, diag=None, configured=None):
     total = 0
     for name, info in list(cache.file_futures.items()):
         if info[0] and name == failed_ok and info[-1].done() and isinstance(info[-1].exception(), OSError):
@@ -92,6 +104,10 @@ def _check_cache(cache, fs, violations, when, model_keys, decode, failed_ok=None
         violations.append({"sig": "C16:inv:accounting-sum", "msg": f"{when}: usage={cache.current_memory_usage} sum={total}"})
     if not (0 <= cache.current_memory_usage <= cache.max_memory):
         violations.append({"sig": "C16:inv:accounting-range", "msg": f"{when}: usage={cache.current_memory_usage} max={cache.max_memory}"})
+    elif configured is not None and cache.current_memory_usage > configured:
+        # the limit that counts is the one this store object was opened with
+        violations.append({"sig": "C16:inv:accounting-above-the-configured-limit", "msg": f"{when}: usage={cache.current_memory_usage}, the store object "
+                           f"was opened with max_memory={configured} (the cache works with {cache.max_memory})"})
     # the shape of the LRU structure is NOT judged (the property speaks of the accounting and of what gets read back; a cache
     # that deletes LRU records lazily would hold it): counted as diagnostics only, the behavioural consequence of a record the
     # eviction pass cannot cope with is what the epilogue of every history provokes
@@ -115,7 +131,7 @@ def scenario(ch, cfg):
         return scenario_tables(ch, cfg)
     from klongpy import KlongInterpreter
     from klongpy.db.helpers import serialize_obj
-    fc, kvs = _fc, _kvs
+    fc, kvs = _fresh_store_modules()
     w = World(ch, max_steps=60000, policy=ch.weighted([2, 1, 2], "policy"))
     fs = SimFS(w, ROOT)
     install_fs(fc, fs)
@@ -163,12 +179,14 @@ def scenario(ch, cfg):
     maxsz = max(sizes + [16])
     lim_kind = ch.weighted([2, 3, 2, 1], "limit")
     limit = [1 << 20, maxsz, 2 * maxsz, maxsz + 7][lim_kind]
-    over_lit = '"' + "x" * (limit + 10) + '"'
+    # "under any cache-size limit", "several [store objects] opened one after another": in some runs every store object is
+    # built through the Python constructor with a limit of its own (a later object may be given a smaller or a larger one)
+    varlimits = ch.draw(3, "varlimits") == 0
     stats = w.stats
     violations = []
     model = {}
     log = []
-    state = {"store": None, "since_set": {}}
+    state = {"store": None, "since_set": {}, "limit": None}
     # fault-injecting configuration (kept apart from the fault-free one): ONE transient read error (EIO when a
     # value file is opened for loading).  Narrow relaxation: from then on a get of THAT key may raise OSError until
     # the key is set again or the store is reopened (the failed load stays registered - shipped behaviour); it
@@ -189,10 +207,19 @@ def scenario(ch, cfg):
 
     def open_store():
         # created the way a user does; the cache limit is a configuration knob of the cache object
-        klong(f'kvs::.kvs("{ROOT}")')
-        st = klong._context[KGSym("kvs")]
-        assert isinstance(st, kvs.KeyValueStorage)
-        st.cache.max_memory = limit
+        if varlimits:
+            lim = [1 << 20, maxsz, 2 * maxsz, maxsz + 7][ch.weighted([2, 3, 2, 1], "limit.open")] if state["limit"] is not None else limit
+            st = kvs.KeyValueStorage(ROOT, max_memory=lim)
+            klong._context[KGSym("kvs")] = st
+            if state["limit"] is not None and lim != state["limit"]:
+                stats["probe_store_opened_again_with_another_limit"] += 1
+        else:
+            lim = limit
+            klong(f'kvs::.kvs("{ROOT}")')
+            st = klong._context[KGSym("kvs")]
+            assert isinstance(st, kvs.KeyValueStorage)
+            st.cache.max_memory = lim
+        state["limit"] = lim
         sim_cache(st.cache, w)
         state["store"] = st
 
@@ -271,10 +298,11 @@ def scenario(ch, cfg):
                 log.append(f"unload({op[1]})")
             elif kind == "oversize":
                 key = op[1]
+                over_lit = '"' + "x" * (state["limit"] + 10) + '"'
                 klong(f't::"{key}",,{over_lit}')
                 try:
                     klong("kvs,t")
-                    viol("C16:oversize-accepted", f"op {i}: a value larger than the limit {limit} was accepted for {key!r}")
+                    viol("C16:oversize-accepted", f"op {i}: a value larger than the limit {state['limit']} was accepted for {key!r}")
                     model[key] = canon(klong("t@1"))
                 except MemoryError:
                     stats["probe_oversize_rejected"] += 1
@@ -296,7 +324,7 @@ def scenario(ch, cfg):
                         stats["probe_eviction"] += 1
             w.note(log[-1])
             _check_cache(st.cache, fs, violations, f"after op {i} {log[-1]}", model.keys(), decode,
-                         failed_ok=iof["key"] if iof is not None else None, diag=stats)
+                         failed_ok=iof["key"] if iof is not None else None, diag=stats, configured=state["limit"])
             if len(violations) > 8:
                 return
         if violations:
@@ -313,7 +341,8 @@ def scenario(ch, cfg):
                 break
         pkeys = [pk for pk in ("zp0", "zp1", "zp2") if pk not in model and pk not in keys]
         for j, pk in enumerate(pkeys):
-            lit = ('"' + "xyz"[j] * fill + '"') if fill and limit < (1 << 20) else str(900 + j)
+            limit_now = state["limit"]
+            lit = ('"' + "xyz"[j] * fill + '"') if fill and limit_now < (1 << 20) else str(900 + j)
             klong(f't::"{pk}",,{lit}')
             expect = canon(klong("t@1"))
             try:
@@ -321,12 +350,12 @@ def scenario(ch, cfg):
             except BaseException as e:   # noqa
                 if isinstance(e, SystemExit):
                     raise
-                viol(f"C16:set-raises:{type(e).__name__}", f"epilogue set({pk!r}, {len(lit)} chars, fits the limit {limit}) raised {type(e).__name__}: {str(e)[:100]} after {log[-3:]}")
+                viol(f"C16:set-raises:{type(e).__name__}", f"epilogue set({pk!r}, {len(lit)} chars, fits the limit {limit_now}) raised {type(e).__name__}: {str(e)[:100]} after {log[-3:]}")
                 break
             model[pk] = expect
             stats["probe_epilogue_pressure_set"] += 1
             _check_cache(st.cache, fs, violations, f"epilogue after set({pk})", model.keys(), decode,
-                         failed_ok=iof["key"] if iof is not None else None, diag=stats)
+                         failed_ok=iof["key"] if iof is not None else None, diag=stats, configured=state["limit"])
         for key in sorted(model):
             if violations:
                 break
@@ -342,7 +371,7 @@ def scenario(ch, cfg):
                 what = res[1] if res[0] == "raised" else "wrong-value"
                 viol(f"C16:get:{what}", f"epilogue: key {key!r} reads {str(res)[:120]}; latest set stored {str(model[key])[:120]}")
             _check_cache(st.cache, fs, violations, f"epilogue after get({key})", model.keys(), decode,
-                         failed_ok=iof["key"] if iof is not None else None, diag=stats)
+                         failed_ok=iof["key"] if iof is not None else None, diag=stats, configured=state["limit"])
 
     a = w.spawn("caller", run_ops)
     reason = w.run()
@@ -384,6 +413,7 @@ def scenario_tables(ch, cfg):
     from klongpy.db.helpers import deserialize_df
     from klongpy.db.sys_fn_db import Table
     from sim.world import ThreadingShim
+    _fresh_store_modules()
     fc, kvs, dfc = _fc, _kvs, _dfc
     w = World(ch, max_steps=60000, policy=ch.weighted([2, 1, 2], "policy"))
     fs = SimFS(w, ROOT)
